@@ -103,6 +103,35 @@ func emitted(img *gbitmap.Image) string {
 	return "ok " + s
 }
 
+// guarded hands New a payload that lives in the middle of a larger array filled with a sentinel; after the call the
+// payload bytes and the sentinel bytes around them (reachable through the slice's spare capacity) must be unchanged:
+// "New does not alter the caller's payload slice".
+func guarded(p []byte) (data []byte, check func() string) {
+	const pad = 24
+	full := make([]byte, len(p)+2*pad)
+	for i := range full {
+		full[i] = 0xA5
+	}
+	copy(full[pad:], p)
+	data = full[pad : pad+len(p)] // capacity reaches into the trailing sentinel
+	check = func() string {
+		for i := range full {
+			want := byte(0xA5)
+			if i >= pad && i < pad+len(p) {
+				want = p[i-pad]
+			}
+			if full[i] != want {
+				if i >= pad && i < pad+len(p) {
+					return fmt.Sprintf("altered-payload New changed byte %d of the caller's payload from %02x to %02x", i-pad, want, full[i])
+				}
+				return fmt.Sprintf("altered-payload New wrote %02x at offset %d relative to the payload (spare capacity of the caller's slice)", full[i], i-pad)
+			}
+		}
+		return ""
+	}
+	return
+}
+
 func init() {
 	// ---------------- QR
 	ops["qr.enc"] = func(a []string) string {
@@ -146,7 +175,11 @@ func init() {
 			return "err invalid level"
 		}
 		// through the PUBLIC entry point, so that the option handling of New is part of what is compared
-		q, err = qrcode.New(parseHex(a[2]), qrcode.WithLevel(lv), qrcode.WithKanji(a[1] == "1"))
+		data, unchanged := guarded(parseHex(a[2]))
+		q, err = qrcode.New(data, qrcode.WithLevel(lv), qrcode.WithKanji(a[1] == "1"))
+		if bad := unchanged(); bad != "" {
+			return bad
+		}
 		if err != nil {
 			return "err " + err.Error()
 		}
@@ -196,7 +229,11 @@ func init() {
 		if lv < 0 || lv >= 4 {
 			return "err invalid level"
 		}
-		q, err = microqr.New(parseHex(a[2]), microqr.WithLevel(lv), microqr.WithKanji(a[1] == "1"))
+		data, unchanged := guarded(parseHex(a[2]))
+		q, err = microqr.New(data, microqr.WithLevel(lv), microqr.WithKanji(a[1] == "1"))
+		if bad := unchanged(); bad != "" {
+			return bad
+		}
 		if err != nil {
 			return "err " + err.Error()
 		}
@@ -256,7 +293,11 @@ func init() {
 			return "err invalid level"
 		}
 		p := rmqr.Priority(atoi(a[1]))
-		q, err = rmqr.New(parseHex(a[3]), rmqr.WithLevel(lv), rmqr.WithKanji(a[2] == "1"), rmqr.WithPriority(p))
+		data, unchanged := guarded(parseHex(a[3]))
+		q, err = rmqr.New(data, rmqr.WithLevel(lv), rmqr.WithKanji(a[2] == "1"), rmqr.WithPriority(p))
+		if bad := unchanged(); bad != "" {
+			return bad
+		}
 		if err != nil {
 			return "err " + err.Error()
 		}
